@@ -1,0 +1,25 @@
+//go:build verif
+
+package schema
+
+// Contracts for govc (see /verif/DESIGN.md). Comment-only file.
+
+// C01: "the i-th array element matches the i-th example element, the last
+// example element governs all further positions, an empty example array admits
+// only the empty array"
+//@ func (ArrayNode).Child(i)
+//@   props C01
+//@   maypanic
+//@   ensures panics <==> len(n.children) == 0
+//@   ensures panics ==> typeis(pv, errors.ErrorCode) && ival(pv) == errors.ErrElementNotFoundInArray
+//@   ensures normal ==> result == n.children[i < len(n.children) ? i : len(n.children) - 1]
+
+//@ func (ArrayNode).Len()
+//@   props C01 C04
+//@   nopanic
+//@   ensures result == len(n.children)
+
+//@ func (ArrayNode).Children()
+//@   props C01 C16
+//@   nopanic
+//@   ensures result == n.children
